@@ -84,49 +84,7 @@ def run(ctx, prog):
         if "R-COVER" in b:
             ctx.broken.append(b)
 
-    # ---------------------------------------------------------------- R-KEYVAL
-    rule = "R-KEYVAL"
-    nf = 0
-    for fn in prog.q("ObjectData::findKey"):
-        nf += 1
-        # the comparison with the key must be guarded by a flag that toggles every iteration
-        cmp_calls = [i for i, st in fn.calls() if st["callee"]["q"].endswith("stringEquals")]
-        ok = False
-        why = "no key comparison found"
-        for ci in cmp_calls:
-            flags = []
-            for cond, pol in fn.guards_of(ci):
-                c = fn.s(fn.strip(cond, casts=True))
-                if c["k"] == "DeclRefExpr" and c["ref"]["k"] == "local" and c.get("tk") == "bool" and pol:
-                    flags.append(c["ref"]["d"])
-            toggled = False
-            for fl in flags:
-                for j in fn.walk():
-                    sj = fn.s(j)
-                    if sj["k"] == "BinaryOperator" and sj["op"] == "=":
-                        l = fn.s(fn.strip(sj["c"][0], casts=True))
-                        r = fn.s(fn.strip(sj["c"][1], casts=True))
-                        if l["k"] == "DeclRefExpr" and l["ref"]["d"] == fl and r["k"] == "UnaryOperator" and r["op"] == "!":
-                            rr = fn.s(fn.strip(r["c"][0], casts=True))
-                            if rr["k"] == "DeclRefExpr" and rr["ref"]["d"] == fl:
-                                toggled = True
-            ok = bool(flags) and toggled
-            why = "comparison guarded by a flag toggled each slot" if ok else \
-                "every slot is compared with the key, value slots included: a string value equal to a key is taken for that key"
-        ctx.ob(rule, "findKey compares key slots only", ok, fn.where, why)
-        # the match exit: `return it` inside the loop only under stringEquals(...) true
-        loops = [i for i in fn.walk() if fn.s(i)["k"] in ("ForStmt", "WhileStmt", "DoStmt", "CXXForRangeStmt")]
-        for li in loops[:1]:
-            body = set(fn.walk(fn.s(li).get("body"))) if fn.s(li).get("body") is not None else set()
-            for r in sorted(body):
-                if fn.s(r)["k"] != "ReturnStmt":
-                    continue
-                g = any(pol and fn.s(fn.strip(c, casts=True))["k"] in P.CALL_KINDS and
-                        fn.s(fn.strip(c, casts=True)).get("callee", {}).get("q", "").endswith("stringEquals") for c, pol in fn.guards_of(r))
-                ctx.ob(rule, "findKey reports a match only when stringEquals holds", g, fn.loc(r),
-                       "" if g else "a member is returned on a path where stringEquals(key, stored key) was not established (e.g. a "
-                       "pointer-identity shortcut): a shorter key that starts at the same address matches a longer stored key")
-    ctx.floor(rule, "ObjectData::findKey instantiations", nf, 3)
+    keyval(ctx, prog)
     unlink(ctx, prog)
     alias(ctx, prog)
     iter_stale(ctx, prog)
@@ -436,3 +394,50 @@ def swap_all(ctx, prog, rule="R-SWAPALL"):
                    "more pools its surplus entries are not handed over and its slot ids resolve into stale pools after the swap" % fn.text(ls["cond"]))
     ctx.floor(rule, "element-wise exchange loops in swap(MemoryPoolList)", n, 1)
     ctx.doc(rule, swap_all.__doc__.strip().replace("\n", " "))
+
+
+def keyval(ctx, prog, rule="R-KEYVAL"):
+    """Object members alternate key slot / value slot: a key lookup compares
+    key slots only and reports a match only when stringEquals held."""
+    nf = 0
+    for fn in prog.q("ObjectData::findKey"):
+        nf += 1
+        # the comparison with the key must be guarded by a flag that toggles every iteration
+        cmp_calls = [i for i, st in fn.calls() if st["callee"]["q"].endswith("stringEquals")]
+        ok = False
+        why = "no key comparison found"
+        for ci in cmp_calls:
+            flags = []
+            for cond, pol in fn.guards_of(ci):
+                c = fn.s(fn.strip(cond, casts=True))
+                if c["k"] == "DeclRefExpr" and c["ref"]["k"] == "local" and c.get("tk") == "bool" and pol:
+                    flags.append(c["ref"]["d"])
+            toggled = False
+            for fl in flags:
+                for j in fn.walk():
+                    sj = fn.s(j)
+                    if sj["k"] == "BinaryOperator" and sj["op"] == "=":
+                        l = fn.s(fn.strip(sj["c"][0], casts=True))
+                        r = fn.s(fn.strip(sj["c"][1], casts=True))
+                        if l["k"] == "DeclRefExpr" and l["ref"]["d"] == fl and r["k"] == "UnaryOperator" and r["op"] == "!":
+                            rr = fn.s(fn.strip(r["c"][0], casts=True))
+                            if rr["k"] == "DeclRefExpr" and rr["ref"]["d"] == fl:
+                                toggled = True
+            ok = bool(flags) and toggled
+            why = "comparison guarded by a flag toggled each slot" if ok else \
+                "every slot is compared with the key, value slots included: a string value equal to a key is taken for that key"
+        ctx.ob(rule, "findKey compares key slots only", ok, fn.where, why)
+        # the match exit: `return it` inside the loop only under stringEquals(...) true
+        loops = [i for i in fn.walk() if fn.s(i)["k"] in ("ForStmt", "WhileStmt", "DoStmt", "CXXForRangeStmt")]
+        for li in loops[:1]:
+            body = set(fn.walk(fn.s(li).get("body"))) if fn.s(li).get("body") is not None else set()
+            for r in sorted(body):
+                if fn.s(r)["k"] != "ReturnStmt":
+                    continue
+                g = any(pol and fn.s(fn.strip(c, casts=True))["k"] in P.CALL_KINDS and
+                        fn.s(fn.strip(c, casts=True)).get("callee", {}).get("q", "").endswith("stringEquals") for c, pol in fn.guards_of(r))
+                ctx.ob(rule, "findKey reports a match only when stringEquals holds", g, fn.loc(r),
+                       "" if g else "a member is returned on a path where stringEquals(key, stored key) was not established (e.g. a "
+                       "pointer-identity shortcut): a shorter key that starts at the same address matches a longer stored key")
+    ctx.floor(rule, "ObjectData::findKey instantiations", nf, 3)
+    ctx.doc(rule, "key lookup alternates key/value slots; a match only under stringEquals")
